@@ -4,6 +4,8 @@ import (
 	"fmt"
 	"os"
 	"sort"
+
+	"gonum.org/v1/gonum/internal/verif/vlib"
 )
 
 // ---------- lattices ----------
@@ -232,4 +234,21 @@ func catch(f func()) (r any) {
 	defer func() { r = recover() }()
 	f()
 	return nil
+}
+
+// knownOnly records cases whose only failure is a known (classified) defect;
+// see the users for how confirmation re-runs are shortened.
+var knownOnly = map[string]bool{}
+
+func replaying() bool { return os.Getenv("VERIF_REPLAY_KEY") != "" }
+
+// classified reports a violation that belongs to a named, triaged defect class
+// (see NOTES.md). It is recorded as a violation of its own (sub-key + class),
+// never merged with unclassified failures of the case, and counted per class.
+func classified(t *vlib.T, sub, class, format string, a ...any) {
+	t.Count("classified:"+class, 1)
+	if sub == "" {
+		sub = class
+	}
+	t.SubViolation(" ["+sub+"]", class, nil, format, a...)
 }
